@@ -306,6 +306,48 @@ func (ex *Exec) verifIntrinsic(st *PState, fn *ssa.Function, base string, args [
 		}
 		rt := fn.Signature.Results().At(0).Type()
 		return ex.ufValue(name, rt, targs), true
+	case "verifAssumeInjective":
+		// pairwise injectivity of all applications of verifUFAny(name,...) made so far:
+		// equal results (all leaves) imply equal arguments
+		name := constString(args[0])
+		apps := ex.ufApps[name]
+		for i := 0; i < len(apps); i++ {
+			for j := i + 1; j < len(apps); j++ {
+				a, b := apps[i], apps[j]
+				if len(a.args) != len(b.args) || len(a.outs) != len(b.outs) {
+					continue
+				}
+				var eo, ea []*Term
+				for k := range a.outs {
+					if a.outs[k].sort == SBool {
+						eo = append(eo, ts.Eq(a.outs[k], b.outs[k]))
+					} else {
+						eo = append(eo, ts.Eq(a.outs[k], b.outs[k]))
+					}
+				}
+				for k := range a.args {
+					ea = append(ea, ts.Eq(a.args[k], b.args[k]))
+				}
+				ex.assume(ts.Implies(ts.And(eo...), ts.And(ea...)))
+			}
+		}
+		return nil, true
+	case "verifAssumeDisjoint":
+		// results of verifUFAny(name1,...) never equal results of verifUFAny(name2,...)
+		n1, n2 := constString(args[0]), constString(args[1])
+		for _, a := range ex.ufApps[n1] {
+			for _, b := range ex.ufApps[n2] {
+				if len(a.outs) != len(b.outs) {
+					continue
+				}
+				var eo []*Term
+				for k := range a.outs {
+					eo = append(eo, ts.Eq(a.outs[k], b.outs[k]))
+				}
+				ex.assume(ts.Not(ts.And(eo...)))
+			}
+		}
+		return nil, true
 	case "verifUFBool":
 		name := constString(args[0])
 		sl := args[1].(*SliceV)
@@ -447,20 +489,56 @@ func (ex *Exec) flattenLeaves(st *PState, v Value, out *[]*Term) {
 		for i := int64(0); i < n.Int64(); i++ {
 			ex.flattenLeaves(st, ex.sliceElem(st, x, ex.ts.Int64(i)), out)
 		}
+	case *ChoiceV:
+		var acc []*Term
+		for i := len(x.Alts) - 1; i >= 0; i-- {
+			var one []*Term
+			ex.flattenLeaves(st, x.Alts[i].V, &one)
+			if acc == nil {
+				acc = one
+				continue
+			}
+			if len(one) != len(acc) {
+				fail("verifUFAny: alternatives of a guarded choice have different shapes")
+			}
+			for k := range acc {
+				acc[k] = ex.ts.Ite(x.Alts[i].G, one[k], acc[k])
+			}
+		}
+		*out = append(*out, acc...)
 	default:
 		fail("verifUFAny: unsupported argument %T", v)
 	}
 }
 
+type ufApp struct {
+	args []*Term
+	outs []*Term
+}
+
 func (ex *Exec) ufValue(name string, t types.Type, args []*Term) Value {
 	ts := ex.ts
+	app := &ufApp{args: args}
+	key := fmt.Sprint(len(args))
+	for _, a := range args {
+		key += fmt.Sprintf(",%d", a.id)
+	}
+	fresh := !ex.ufAppSeen[name+"|"+key]
+	ex.ufAppSeen[name+"|"+key] = true
+	defer func() {
+		if fresh {
+			ex.ufApps[name] = append(ex.ufApps[name], app)
+		}
+	}()
 	mk := func(leaf string, lo, hi *big.Int, s Sort) *Term {
 		sorts := make([]Sort, len(args))
 		for i := range sorts {
 			sorts[i] = SInt
 		}
 		d := ts.DeclareUF(fmt.Sprintf("%s%s/%d", name, leaf, len(args)), sorts, s, lo, hi)
-		return ts.App(d, args...)
+		r := ts.App(d, args...)
+		app.outs = append(app.outs, r)
+		return r
 	}
 	var build func(path string, t types.Type) Value
 	build = func(path string, t types.Type) Value {
